@@ -188,10 +188,11 @@ func buildEnvs() {
 						}
 						for ci, c := range cs {
 							r := types.Request{Principal: rq.p, Action: rq.a, Resource: rq.r, Context: c}
-							// "conforming" = built from the schema AND accepted by the validator's own conformance checks
+							// "conforming" = built from the schema; whether the validator's own conformance checks agree is counted
+							// (counted only: every store and request here conforms by construction, and the
+							// environments must not thin out if the conformance checks ever reject more)
 							if vStrict.Entities(store) != nil || vStrict.Request(r) != nil {
 								envsSkipped++
-								continue
 							}
 							envs = append(envs, env{
 								desc: fmt.Sprintf("request #%d (%s,%s,%s) context #%d; user variant %d, tags %d, doc variant %d, presence %d", ri, rq.p, rq.a, rq.r, ci, uv, tagv, dv, presence),
